@@ -450,7 +450,11 @@ def c05_stored(R):
     dk = util.kw(i, "depth")
     ddef = [d for d in defs.get("depth", [])]
     R.check(
-        dk is not None and ast.unparse(dk) == "depth" and ddef and ast.unparse(ddef[0].value) in ("arg_max_depth + 1", "1 + arg_max_depth"),
+        dk is not None
+        and (
+            ast.unparse(dk) in ("arg_max_depth + 1", "1 + arg_max_depth")  # written in place (or a temporary read in place)
+            or (isinstance(dk, ast.Name) and len(defs.get(dk.id, [])) == 1 and ast.unparse(defs[dk.id][0].value) in ("arg_max_depth + 1", "1 + arg_max_depth"))
+        ),
         m,
         i,
         "depth = deepest child + 1",
@@ -1489,11 +1493,17 @@ def c08_ite(R):
     idf = tree.func(BOOLAST, "ite_dict")
     bd = {}
     R.check(
-        util.has_frag(idf, "dictLow = {c: v for c, v in d.items() if c <= split_val}", idf, bd, share={"dictLow", "split_val"})
-        and util.has_frag(idf, "dictHigh = {c: v for c, v in d.items() if c > split_val}", idf, bd, share={"dictHigh", "split_val"})
-        and util.has_frag(idf, "valLow = ite_dict(i, dictLow, default)", idf, bd)
-        and util.has_frag(idf, "valHigh = ite_dict(i, dictHigh, default)", idf, bd)
-        and util.has_frag(idf, "return If(i <= split_val, valLow, valHigh)", idf, bd),
+        # one fragment: it is normalised like the code (temporaries that are used once, right away, are read in place)
+        util.has_frag(
+            idf,
+            "dictLow = {c: v for c, v in d.items() if c <= split_val}\n"
+            "dictHigh = {c: v for c, v in d.items() if c > split_val}\n"
+            "valLow = ite_dict(i, dictLow, default)\n"
+            "valHigh = ite_dict(i, dictHigh, default)\n"
+            "return If(i <= split_val, valLow, valHigh)",
+            idf,
+            bd,
+        ),
         m,
         idf,
         "ite_dict: keys <= pivot go to the then-branch of `i <= pivot`",
